@@ -55,6 +55,11 @@ func (w *Writer) cutBuffer() {
 	w.vec = append(w.vec, data)
 }
 
+// Reset discards all data that was chained or buffered since last [Writer.Flush].
+func (w *Writer) Reset() {
+	w.reset()
+}
+
 func (w *Writer) reset() {
 	w.bufOffset = 0
 	w.needCut = false
